@@ -2010,8 +2010,8 @@ static void DecodeEXG(Word IsW) {
         case eModAbs16:
             if (DecodeAdr(&ArgStr[2], MModA, False, &SrcAdrVals)) {
                 BAsmCode[0] = 0x31;
-                memcpy(&BAsmCode[1], SrcAdrVals.Vals, SrcAdrVals.Cnt);
-                CodeLen = 3;
+                memcpy(&BAsmCode[1], DestAdrVals.Vals, DestAdrVals.Cnt);
+                CodeLen = 1 + DestAdrVals.Cnt;
             }
             break;
         case eModX:
